@@ -135,7 +135,7 @@ def run(ctx):
                 ("exhaustive 3 accounts cap 7, <= 4 calls", "GRC20_t2.cfg", None, "check"),
                 ("witness: TransferFrom as coded", "GRC20_w.cfg", None, "witness"),
                 ("simulation 3 accounts cap 7, 30 calls", "GRC20_sim.cfg", (3, 7), "sim")]
-        nsim, kstr = 120, 8
+        nsim, kstr = 300, 12
 
     def tlc(run_):
         label, cfg, dims, mode = run_
